@@ -203,6 +203,7 @@ StepL64(r, S, c, rej) ==
         n == IF fits THEN lo[1] * 65536 + lo[2] ELSE Big
         r1 == [r EXCEPT !.pos = r.pos + 8, !.need = n]
     IN IF top /\ ~Failed(r) THEN Fail(r1, {1002, 1009}, "len64-topbit", Big)
+       ELSE IF top THEN [r |-> [r1 EXCEPT !.ph = "F", !.fend = Big, !.failed = @ \cup {1009}], out |-> HdrOut]
        ELSE LenDone(r1, c, rej)
 
 StepM(r, S) ==
